@@ -42,7 +42,8 @@ func runC01(r *harness.Run) {
 	// the call, index, metamethod, closure and loop families once more behind 300 constants (every
 	// later constant of the main function needs a register: K operands beyond 255)
 	korder := []string{}
-	for n, g := range map[string]Gen{"F-call": genCall(false), "F-callmeta": genMetaCall(false), "F-index": genMetaIndex(false), "F-chain": genMetaChain(false), "F-select": genSelectUnpack(false),
+	// (the call family behind 300 and 600 constants runs under C02)
+	for n, g := range map[string]Gen{"F-callmeta": genMetaCall(false), "F-index": genMetaIndex(false), "F-chain": genMetaChain(false), "F-select": genSelectUnpack(false),
 		"F-genfor": genGenFor(false), "F-constobj": genConstObj(false), "F-fractkey": genFractKey(), "F-tcons": genTCons(false), "F-numfor": genNumFor(false), "F-closure": genClosure(false)} {
 		gens["K300/"+n] = mapGen(g, "K300/", constPressure(300))
 		korder = append(korder, "K300/"+n)
